@@ -424,3 +424,6 @@ func simCid(data []byte) ([]byte, error) {
 	}
 	return c.Bytes(), nil
 }
+
+// SimCid is the content identifier the simulated store gives to data.
+func SimCid(data []byte) ([]byte, error) { return simCid(data) }
